@@ -1,9 +1,260 @@
-import Model.Sync
+import Proofs.SyncWitness
+import Proofs.SyncProducer
+import Spec.C01
 
-/-! # C02 — a full node converges to exactly the proposer's chain under any delivery order
-(placeholder: the full theorem set is under construction in Proofs/Sync*.lean) -/
+/-!
+# C02 — a full node converges to exactly the proposer's chain under any delivery order
+
+Model: `Sync.onHeader`, `Sync.onData`, `Sync.trySync`, `Sync.start` (`block/sync.go` `SyncLoop`,
+`trySyncNextBlock`, `handleEmptyDataHash`, `NewManager` without signer) — the definitions the driver
+`drv_C02` executes and the correspondence check compares with the real `SyncLoop` on every run.
+
+Setting (`Proofs/SyncBase`): `ch : Nat → Option Block` is the proposer's chain on heights
+`[c.initialHeight, top]`; `GoodChain c ch top` says every block passes `execValidate` (the syncer's own
+validation) against the state derived from its predecessor (`Spec.C01` proves that of every chain the
+sequencer node commits).  Events `Ev.hdr k | Ev.dat k` deliver the genuine header / data of height `k`
+(adversarial items are C03).  DA and P2P ingress, duplication, delay and interleaving are all just *some event
+list*: every theorem quantifies over **all** event lists.  `run c ch evs` folds the events from
+`Sync.start c {}`; `runOps` additionally allows a clean stop/restart (`Sync.start` on the node's own store
+with the caches kept) at any position.
+-/
 namespace Spec.C02
 open Wire Chain Sync
+
+variable {c : Cfg} {ch : PChain} {top : Nat}
+
+/-- `run` starts from what `Sync.start` builds on an empty store -/
+theorem run_starts_from_start (c : Cfg) : ∃ ws, Sync.start c {} = some (fresh c, ws) := start_fresh c
+
+/-! ## (a) safety, (c) the loop never dies — for every event list with restarts anywhere -/
+
+/-- **(a) Safety.**  Whatever was delivered, in whatever order and multiplicity, with clean restarts anywhere:
+every block stored at a height up to the chain height is the proposer's — same signed header (hence the same
+header hash), same transaction list, for a non-empty block the very same data (an empty block's data is built
+locally and has no transactions); the stored chain height is the height of the state; the state is the one
+obtained by executing the proposer's blocks up to that height. -/
+theorem C02_safety (g : GoodChain c ch top) (ops : List Op) :
+    (runOps c ch ops).store.height = (runOps c ch ops).lastState.lastHeight ∧
+    (runOps c ch ops).lastState = stateAt c ch (runOps c ch ops).store.height ∧
+    ∀ k, c.initialHeight ≤ k → k ≤ (runOps c ch ops).store.height →
+      ∃ b sb, ch k = some b ∧ (runOps c ch ops).store.getBlock k = some sb ∧
+        sb.sh = b.sh ∧ sb.sh.hdr.hash = b.sh.hdr.hash ∧ sb.data.txs = b.data.txs ∧
+        (b.data.txs ≠ [] → sb.data = b.data) ∧ (IsEmpty b → sb.data.txs = []) := by
+  have hs := runOps_safe g ops
+  refine ⟨hs.hs g, hs.st, fun k h1 h2 => ?_⟩
+  obtain ⟨b, sb, hb, hsb, e1, _, e3, e4⟩ := hs.chain k h1 h2
+  exact ⟨b, sb, hb, hsb, e1, by rw [e1], e3, e4, fun he => by rw [e3]; exact g.emptyTxs k b hb he⟩
+
+/-- **(a) State root.**  The node's application state root after height `h` is the root the proposer itself
+recorded for that point: the `appHash` of the proposer's next header. -/
+theorem C02_state_root (g : GoodChain c ch top) (ops : List Op) (b : Block)
+    (hb : ch ((runOps c ch ops).store.height + 1) = some b) :
+    (runOps c ch ops).lastState.appHash = b.sh.hdr.appHash := by
+  rw [(runOps_safe g ops).st, (g.facts hb).appHash, Nat.add_sub_cancel]
+
+/-- **(c) The loop never dies on genuine events.** -/
+theorem C02_never_dies (g : GoodChain c ch top) (ops : List Op) : (runOps c ch ops).alive = true :=
+  (runOps_safe g ops).alive
+
+/-! ## (b) the height never decreases and no height is skipped -/
+
+/-- **(b) Monotone along every prefix.** -/
+theorem C02_height_monotone (g : GoodChain c ch top) (ops₁ ops₂ : List Op) :
+    (runOps c ch ops₁).store.height ≤ (runOps c ch (ops₁ ++ ops₂)).store.height := by
+  unfold runOps
+  rw [runFrom_append]
+  exact (runFrom_safe g ops₂ (runOps_safe g ops₁)).2
+
+/-- **(b) No height is skipped, blocks are applied strictly in height order.**  The durable writes of every
+single step are, for the consecutive heights `h+1, h+2, …, h'` (old and new chain height) and in this order:
+state after `k`, block `k`, chain height `k`.  In particular the chain-height writes, the block saves (one
+`ExecuteTxs` call each) and the state writes of the step go through `h+1 … h'` one by one. -/
+theorem C02_no_skip (g : GoodChain c ch top) (ops : List Op) (e : Ev) :
+    let n := runOps c ch ops
+    let r := deliver ch n e
+    n.store.height ≤ r.1.store.height ∧
+    heightWrites r.2 = List.range' (n.store.height + 1) (r.1.store.height - n.store.height) ∧
+    savedHeights r.2 = List.range' (n.store.height + 1) (r.1.store.height - n.store.height) ∧
+    stateWrites r.2 = (List.range' (n.store.height + 1) (r.1.store.height - n.store.height)).map (stateAt c ch) ∧
+    r.2.length = 3 * (r.1.store.height - n.store.height) := by
+  intro n r
+  have a := (deliver_safe g (runOps_safe g ops) e).2
+  exact ⟨a.le, a.consecutive⟩
+
+/-- a step never touches a block at or below the chain height -/
+theorem C02_committed_never_replaced (g : GoodChain c ch top) (ops : List Op) (e : Ev) (k : Nat)
+    (hk : k ≤ (runOps c ch ops).store.height) :
+    ((runOps c ch ops).store.applyAll (deliver ch (runOps c ch ops) e).2).getBlock k = (runOps c ch ops).store.getBlock k :=
+  (deliver_safe g (runOps_safe g ops) e).2.keeps _ k hk
+
+/-! ## (d) convergence -/
+
+/-- the node never runs ahead of what was delivered (no assumption on commitments) -/
+theorem C02_no_overshoot (g : GoodChain c ch top) (ops : List Op) :
+    (runOps c ch ops).store.height ≤ ready c ch top (evsOf ops) := by
+  have hs := runOps_safe g ops
+  obtain ⟨r1, _, r3⟩ := ready_spec g (evsOf ops)
+  by_cases h : (runOps c ch ops).store.height ≤ ready c ch top (evsOf ops)
+  · exact h
+  · exact absurd (hs.sound (ready c ch top (evsOf ops) + 1) (by omega) (by omega)) r3
+
+/-- `ready` is the largest height up to which both parts of every block have been delivered -/
+theorem ready_is_largest (g : GoodChain c ch top) (evs : List Ev) :
+    (∀ k, c.initialHeight ≤ k → k ≤ ready c ch top evs → Delivered ch evs k) ∧
+    ¬ Delivered ch evs (ready c ch top evs + 1) :=
+  ⟨(ready_spec g evs).2.1, (ready_spec g evs).2.2⟩
+
+/-- **(d) Convergence, strongest true form.**  If the non-empty blocks of the chain have pairwise different
+data commitments (and different heights different header hashes), then for **every** event list — any order,
+any multiplicity, clean restarts anywhere — the chain height is exactly `ready`: the node has applied every
+block up to the largest height for which both parts of all blocks were delivered.  (`_partial`: the excluded
+chains are refuted below.) -/
+theorem C02_converges_partial (g : GoodChain c ch top) (dc : DistinctCommitments ch) (ops : List Op) :
+    (runOps c ch ops).store.height = ready c ch top (evsOf ops) := by
+  apply Nat.le_antisymm (C02_no_overshoot g ops)
+  have hi := runOps_inv g dc ops
+  exact hi.converges _ (fun k a b => (ready_spec g (evsOf ops)).2.1 k (by omega) b)
+
+/-- the same for plain event lists -/
+theorem C02_converges_partial_run (g : GoodChain c ch top) (dc : DistinctCommitments ch) (evs : List Ev) :
+    (run c ch evs).store.height = ready c ch top evs := by
+  have := C02_converges_partial g dc (evs.map .ev)
+  rwa [← run_eq_runOps, evsOf_map] at this
+
+/-- when everything has been delivered the node holds the whole chain -/
+theorem C02_reaches_top (g : GoodChain c ch top) (dc : DistinctCommitments ch) (ops : List Op)
+    (hall : ∀ k, c.initialHeight ≤ k → k ≤ top → Delivered ch (evsOf ops) k) :
+    top ≤ (runOps c ch ops).store.height :=
+  (runOps_inv g dc ops).converges top (fun k a b => hall k (by omega) b)
+
+/-! ## (e) clean restart -/
+
+/-- **(e) A clean restart changes nothing the loop reads**: `Sync.start` on the node's own store with the
+caches kept succeeds; chain height, state, both caches, both seen-sets and every stored block up to the chain
+height are unchanged.  Theorems (a)–(d) above are stated for `runOps`, i.e. with restarts at any positions. -/
+theorem C02_restart_transparent (g : GoodChain c ch top) (ops : List Op) :
+    let n := runOps c ch ops
+    (∃ ws, Sync.start c n.store n = some (restart c n, ws)) ∧
+    (restart c n).store.height = n.store.height ∧ (restart c n).lastState = n.lastState ∧
+    (restart c n).hdrCache = n.hdrCache ∧ (restart c n).datCache = n.datCache ∧
+    (restart c n).seenH = n.seenH ∧ (restart c n).seenD = n.seenD ∧ (restart c n).alive = true ∧
+    (∀ k, k ≤ n.store.height → (restart c n).store.getBlock k = n.store.getBlock k) := by
+  intro n
+  obtain ⟨a1, a2, a3, a4, a5, a6, a7, a8, a9, _⟩ := restart_spec g (runOps_safe g ops)
+  exact ⟨a1, a2, a3, a4, a5, a6, a7, a8, a9⟩
+
+/-! ## the full statement is false of the current code -/
+
+/-- the property as stated (no assumption on the chain beyond validity) -/
+def C02_converges_full : Prop :=
+  ∀ (c : Cfg) (ch : PChain) (top : Nat) (evs : List Ev), GoodChain c ch top →
+    (run c ch evs).store.height = ready c ch top evs
+
+/-- the witness chain (built by the producer model: block 1 empty, blocks 2 and 4 hold the same transaction
+list `[[7]]`) is a good chain -/
+theorem witness_good : GoodChain wC wch 4 := goodChain_of_check wC _ 4 (by decide) wFacts.1
+
+/-- **The full statement fails** (kernel-checked): all eight events delivered *in order*; the data of block 4
+has the same commitment as the data of block 2 (the commitment ignores the metadata), is dropped as "already
+seen", and the node stalls at height 3 although everything up to 4 was delivered.  Replayed on the real
+`SyncLoop` by stream C02 (`C02/stall/tx-list-repeats-an-earlier-block`). -/
+theorem C02_converges_fails : ¬ C02_converges_full := by
+  intro h
+  have := h wC wch 4 wInOrder witness_good
+  rw [wFacts.2.1, wFacts.2.2.1] at this
+  exact absurd this (by decide)
+
+/-! ## non-vacuity -/
+
+/-- the hypotheses of (a)–(c) are met by a chain the producer model builds, with repeated transaction lists -/
+example : GoodChain wC wch 4 ∧ wProd.store.height = 4 ∧
+    (wch 2).map (·.data.txs) = some [[7]] ∧ (wch 4).map (·.data.txs) = some [[7]] :=
+  ⟨witness_good, wFacts.2.2.2.2.2.2.1⟩
+
+theorem witness3_good : GoodChain wC wch3 3 := goodChain_of_check wC _ 3 (by decide) wFacts.2.2.2.1
+theorem witness3_distinct : DistinctCommitments wch3 := distinct_of_check 1 3 _ wFacts.2.2.2.2.1
+
+/-- the hypotheses of (d) are met, and the theorem yields a non-trivial height: the first three blocks,
+delivered out of order and with duplicates, are all applied -/
+example : (run wC wch3 wShuffled).store.height = 3 := by
+  rw [C02_converges_partial_run witness3_good witness3_distinct]; exact wFacts.2.2.2.2.2.1
+
+/-- (a) is not vacuous: on that run three blocks are stored, each the proposer's -/
+example : ∀ k, 1 ≤ k → k ≤ 3 → ∃ b sb, wch3 k = some b ∧ (run wC wch3 wShuffled).store.getBlock k = some sb ∧ sb.sh = b.sh := by
+  intro k h1 h2
+  have h3 : (run wC wch3 wShuffled).store.height = 3 := by
+    rw [C02_converges_partial_run witness3_good witness3_distinct]; exact wFacts.2.2.2.2.2.1
+  have := (C02_safety witness3_good (wShuffled.map .ev)).2.2 k h1 (by rw [← run_eq_runOps, h3]; exact h2)
+  rw [← run_eq_runOps] at this
+  obtain ⟨b, sb, a, b', c', _⟩ := this
+  exact ⟨b, sb, a, b', c'⟩
+
+/-! ## the chains of C01 are good chains -/
+
+/-- the full node's configuration for a given sequencer configuration (same genesis) -/
+def syncCfg (pc : Producer.Cfg) : Cfg :=
+  { chainId := pc.chainId, initialHeight := pc.initialHeight, genesisTime := pc.genesisTime,
+    proposerAddr := pc.proposerAddr, genesisRoot := pc.genesisRoot }
+
+/-- the committed chain of a sequencer node -/
+def chainOf (pc : Producer.Cfg) (pn : Producer.Node) : PChain :=
+  clip pc.initialHeight pn.store.height pn.store.getBlock
+
+/-- SHA-256 yields the commitment of the empty transaction list for no other list (a second pre-image would be
+needed); the only cryptographic assumption of the connection below -/
+def EmptyCommitmentUnique : Prop := ∀ d : Data, d.daCommitment = emptyDataHash → d.txs = []
+
+/-- **Every chain the sequencer node commits (C01) is a `GoodChain`**, i.e. the theorems of this file apply
+to every chain of `Spec.C01`: for every list of sequencing-layer responses and execution outcomes. -/
+theorem goodChain_of_producer {pc : Producer.Cfg} {pn : Producer.Node} (hi : Producer.Inv pc pn)
+    (hm : Producer.MetaInv pc pn) (hcol : EmptyCommitmentUnique) :
+    GoodChain (syncCfg pc) (chainOf pc pn) pn.store.height := by
+  have hpos := hi.ihPos
+  have dom : ∀ k b, chainOf pc pn k = some b → (pc.initialHeight ≤ k ∧ k ≤ pn.store.height) ∧ pn.store.getBlock k = some b := by
+    intro k b hk
+    unfold chainOf clip at hk
+    split at hk
+    · rename_i h; exact ⟨h, hk⟩
+    · cases hk
+  have at_ : ∀ k, pc.initialHeight ≤ k → k ≤ pn.store.height → chainOf pc pn k = pn.store.getBlock k := by
+    intro k h1 h2; unfold chainOf clip; rw [if_pos ⟨h1, h2⟩]
+  refine ⟨hpos, fun k b hk => (dom k b hk).1, ?_, ?_, ?_, ?_⟩
+  · intro k h1 h2
+    obtain ⟨b, hb, _⟩ := hi.chain k h1 h2
+    exact ⟨b, by rw [at_ k h1 h2]; exact hb⟩
+  · intro k b hk
+    obtain ⟨⟨h1, h2⟩, hb⟩ := dom k b hk
+    obtain ⟨b', hb', hv⟩ := Spec.C01.C01_full_node_validates hi k h1 h2
+    rw [hb] at hb'; cases hb'
+    have e : stateAt (syncCfg pc) (chainOf pc pn) (k - 1) = Spec.C01.stateBefore pc pn.store k := by
+      unfold Spec.C01.stateBefore stateAt
+      by_cases hk0 : k = pc.initialHeight
+      · have : chainOf pc pn (k - 1) = none := by
+          unfold chainOf clip; rw [if_neg (by omega)]
+        rw [this, if_pos hk0]; subst hk0; rfl
+      · rw [if_neg hk0, at_ (k - 1) (by omega) (by omega)]
+        obtain ⟨p, hp, _⟩ := hi.chain (k - 1) (by omega) (by omega)
+        rw [hp]; rfl
+    rw [e]; exact hv
+  · intro k b hk he
+    obtain ⟨⟨h1, h2⟩, hb⟩ := dom k b hk
+    obtain ⟨b', hb', hl⟩ := hi.chain k h1 h2
+    rw [hb] at hb'; cases hb'
+    exact hcol b.data (by rw [hl.dataHash]; exact he)
+  · intro k b hk _
+    obtain ⟨⟨h1, h2⟩, hb⟩ := dom k b hk
+    exact hm k b h1 h2 hb
+
+/-- in particular from a fresh start, for every run of the producer -/
+theorem goodChain_of_run (pc : Producer.Cfg) (hpos : 1 ≤ pc.initialHeight) (rs : List (Producer.SeqResp × Producer.ExecResp))
+    (hcol : EmptyCommitmentUnique) :
+    GoodChain (syncCfg pc) (chainOf pc (Producer.run pc (Producer.freshNode pc) rs))
+      (Producer.run pc (Producer.freshNode pc) rs).store.height :=
+  goodChain_of_producer (Producer.run_inv (Producer.freshNode_inv pc hpos) rs)
+    (Producer.run_metaInv (Producer.freshNode_inv pc hpos) (Producer.freshNode_metaInv pc hpos) rs) hcol
+
+
+/-! ## small facts about single events (any node) -/
 
 /-- a node whose sync loop has terminated ignores every further event -/
 theorem dead_ignores_header (n : FNode) (sh : SHeader) (h : n.alive = false) : onHeader n sh = (n, []) := by
